@@ -138,6 +138,12 @@ def rule_provenance(ctx):
                 n += 1
                 ctx.check(p.outcome.startswith('Not(call:IpBlock::is_slash_zero'), 'K3', 'extend_from_cert:filter:%s' % c.nid.split('::')[-1],
                           'only whole-family /0 blocks are excluded', 'filter closure returns %s' % p.outcome)
+    # the same exclusion written as `if block.is_slash_zero() { continue }` inside the loop
+    e_sz, sw_sz = G('not /0', call='re:IpBlock::is_slash_zero$', labels={'false'}).edges(b)
+    for s_ in pushes:
+        if sw_sz and e_sz and b.path_avoiding(s_.bb, avoid_edges=e_sz) is None:
+            n += 1
+            ctx.ok('K3', 'extend_from_cert:guard:%s' % arg_desc(s_, 1)[:30], 'a block is recorded unless it is the whole-family /0 block', loc=s_.loc())
     ctx.floor('K3', 'is_slash_zero filters', n, 2)
     f = ctx.body('payload::validation::RejectedResourcesBuilder::finalize')
     ok = True
